@@ -114,7 +114,10 @@ def run(ctx):
         rows, g = sheetgen.gen_core_sheet(rng, rng.choice([2, 4, 6, 10, 15]), wf=True, special_text=rng.random() < 0.5)
         if rows:
             ctx.count("fragment_sheets")
+            before = ctx.stats.get("refinement: sheets in the fragment of the theorem", 0)
             judge(ctx, strip_names(rows), rng, nontrivial, samples, wf=True)
+            if ctx.stats.get("refinement: sheets in the fragment of the theorem", 0) > before:
+                ctx.count("fragment_sheets inside the fragment")
     # node merging through the node name (rows sharing a _nodeId), written deliberately
     for i in range(n // 10):
         rng = ctx.rng
